@@ -880,7 +880,7 @@ func constructDateFromTmp(tmp tmpDate) Date {
 		} else {
 			yearStart = datetimeISOYearStart(result.Year())
 		}
-		datetime := yearStart.AddTimeSpan(TimeSpan(tmp.isoWeek) * Week)
+		datetime := yearStart.AddTimeSpan(TimeSpan(tmp.isoWeek-1) * Week)
 		result = datetime.Date()
 		hasWeek = true
 	}
